@@ -19,8 +19,10 @@ E5  the real library with long chains (n = 2500 and 4n = 10^4: `then` continuati
     pipeline_serial_fault_{p1,p2,open_p3} record an exception in the pipeline's task set (a stage throws)
     while a serial stage is in the middle of a run of inline continuations with a large backlog that nobody
     discards (the caller of pipeline() runs the chain itself / is inside a slow stage call / is parked in the
-    open generator's completion wait); model kind `pipeexc`.  The record says whether the fault was placed
-    (inj); a run in which it was not says nothing and is repeated.
+    open generator's completion wait); model kind `pipeexc`.  cts_recursive_{heavy,light}_fault_p1: a sibling task
+    throws while a recursive chain on a ConcurrentTaskSet is 10 links deep and the pool stays over its load factor
+    (the chain must end there: a cancelled set drops work).  The record says whether the fault was placed (inj); a
+    run in which it was not says nothing and is repeated.
 """
 import json
 import os
@@ -37,6 +39,7 @@ MODEL = {
     'pipeline_serial_p1': ('pipe', 1), 'pipeline_serial_p2': ('pipe', 2), 'pipeline_serial_p0': ('graph', 0),
     'pipeline_serial_fault_p1': ('pipeexc', 1), 'pipeline_serial_fault_p2': ('pipeexc', 2), 'pipeline_serial_fault_open_p3': ('pipeexc', 2),
     'graph_chain_p2': ('graph', 2), 'graph_comb_p1': ('cts', 1), 'graph_comb_p0': ('cts', 0),
+    'cts_recursive_heavy_fault_p1': ('cts', 1), 'cts_recursive_light_fault_p1': ('cts', 1),
     'cts_recursive_heavy_p1': ('cts', 1), 'cts_recursive_light_p1': ('cts', 1), 'cts_recursive_heavy_p0': ('cts', 0),
     'ts_recursive_p1': ('ts', 1), 'pool_recursive_p1': ('pool', 1), 'pool_recursive_p0': ('pool', 0),
     'pool_bulk_recursive_p1': ('pool', 1),
